@@ -160,6 +160,10 @@ pub enum Event {
         loc: Path,
         brk: bool,
     },
+    /// the value source handed out the next entry of the object at `at` (its iterator yielded)
+    Deliver { at: Path, key: String },
+    /// the value of the object member at `path` was decoded (`IntoValue::into_value`)
+    Decode { path: Path },
     /// an error value died without having been handed to anybody
     Dropped { vid: u32, ty: u8, reports: Vec<u32> },
     /// a user error died without having been handed to the error type
@@ -229,6 +233,8 @@ impl Event {
                 path_str(loc),
                 if *brk { "Break" } else { "Continue" }
             ),
+            Event::Deliver { at, key } => format!("Deliver entry {key:?} of the object at {}", path_str(at)),
+            Event::Decode { path } => format!("Decode member value at {}", path_str(path)),
             Event::Dropped { vid, ty, reports } => format!("Dropped v{vid} E{ty} holding {reports:?}"),
             Event::DroppedUser { token } => format!("DroppedUser {token}"),
         }
@@ -267,6 +273,8 @@ pub struct Ctx {
     /// statistics
     pub removes: u32,
     pub swap_moved_known: u32,
+    /// >0 while the harness itself walks a value (snapshots): source events are not history then
+    pub quiet: u32,
 }
 
 impl Ctx {
@@ -282,6 +290,7 @@ impl Ctx {
             next_rid: 0,
             removes: 0,
             swap_moved_known: 0,
+            quiet: 0,
         }
     }
 }
@@ -303,7 +312,25 @@ pub fn reset(script: Script, leaf_faults: Vec<Path>, cb_faults: Vec<(u32, u64)>,
         c.next_rid = 0;
         c.removes = 0;
         c.swap_moved_known = 0;
+        c.quiet = 0;
     })
+}
+
+/// events of the value source; suppressed while the harness's own observers walk a value
+pub fn log_source(e: Event) {
+    CTX.with(|c| {
+        let mut c = c.borrow_mut();
+        if c.quiet == 0 {
+            c.events.push(e);
+        }
+    })
+}
+
+pub fn quietly<R>(f: impl FnOnce() -> R) -> R {
+    CTX.with(|c| c.borrow_mut().quiet += 1);
+    let r = f();
+    CTX.with(|c| c.borrow_mut().quiet -= 1);
+    r
 }
 
 pub fn take_events() -> Vec<Event> {
